@@ -8,8 +8,8 @@ package c09
 
 import (
 	"fmt"
-	"strings"
 	"maps"
+	"strings"
 
 	"verif/mc/chain"
 	"verif/mc/faultdb"
